@@ -11,6 +11,9 @@ enum Case {
     /// content of length `n` as a slice at symbol offset `s` (ph > 0: inside a parent copied from offset ph);
     /// the chained second operand has length `n2` at offset `s2`
     Shape { cid: Cid, n: usize, s: usize, ph: usize, n2: usize, s2: usize },
+    /// iterator protocol: every {next, nth(k)} sequence up to `depth`, then every terminal consumer,
+    /// on each iterator over a content of length `n` at offset `s` (windows/chunks of width `w`)
+    Protocol { cid: Cid, n: usize, s: usize, w: usize, depth: usize },
 }
 
 fn gen(t: Tier, _seed: u64, emit: &mut dyn FnMut(Case)) {
@@ -30,17 +33,61 @@ fn gen(t: Tier, _seed: u64, emit: &mut dyn FnMut(Case)) {
                 emit(Case::Shape { cid, n, s, ph, n2: 3, s2: 1 });
             }
         }
+        let spw = 64 / bits;
+        for n in [0usize, 1, 2, 3, 5, 7, spw + 1] {
+            for w in [1usize, 2, 3, n, n + 1] {
+                if w >= 1 {
+                    for s in [0usize, nof - 1] {
+                        emit(Case::Protocol { cid, n, s, w, depth: t.pick(3, 4) });
+                    }
+                }
+            }
+        }
     }
 }
 
 fn run(c: &Case, out: &mut Out) {
     match c {
         Case::Shape { cid, .. } => dispatch!(*cid, run_g(c, out)),
+        Case::Protocol { cid, .. } => dispatch!(*cid, proto_g(c, out)),
     }
 }
 
+fn proto_g<A: Sx>(c: &Case, out: &mut Out) {
+    let Case::Protocol { n, s, w, depth, .. } = c else { return };
+    let (n, s, w, depth) = (*n, *s, *w, *depth);
+    let cn = A::CID.name();
+    let m = alphabet::<A>().len();
+    let content: Vec<A> = syms::<A>(&bg(n, m, 25 + s as u64, out.seed));
+    let second: Vec<A> = syms::<A>(&bg(2, m, 26, out.seed));
+    let pl = place(&content, s, 0);
+    let pl2 = place(&second, 1, 1);
+    let v = pl.view();
+    let owned = build(&content);
+    out.units += 1;
+    let id = |a: A| a;
+    let rd = |x: &SeqSlice<A>| read(x);
+    let what = format!("{} (len {n}, offset {s})", show_cut(&content));
+    let mut t = 0;
+    if w == 1 {
+        t += bsv::iterproto::explore(&format!("{cn}/iter"), &format!("iter() over {what}"), &|| v.iter(), &id, &content, depth, out);
+        t += bsv::iterproto::explore(&format!("{cn}/into_iter-seq"), &format!("(&seq).into_iter() over {what}"), &|| (&owned).into_iter(), &id, &content, depth, out);
+        let rev: Vec<A> = content.iter().rev().copied().collect();
+        t += bsv::iterproto::explore(&format!("{cn}/rev_iter"), &format!("rev_iter() over {what}"), &|| v.rev_iter(), &id, &rev, depth, out);
+        let mut ch = content.clone();
+        ch.extend_from_slice(&second);
+        t += bsv::iterproto::explore(&format!("{cn}/chain"), &format!("chain over {what}"), &|| v.chain(pl2.view()), &id, &ch, depth, out);
+    }
+    let win: Vec<Vec<A>> = if w <= n { (0..=n - w).map(|i| content[i..i + w].to_vec()).collect() } else { vec![] };
+    t += bsv::iterproto::explore(&format!("{cn}/windows"), &format!("windows({w}) over {what}"), &|| v.windows(w), &rd, &win, depth, out);
+    let chk: Vec<Vec<A>> = (0..n / w).map(|i| content[i * w..(i + 1) * w].to_vec()).collect();
+    t += bsv::iterproto::explore(&format!("{cn}/chunks"), &format!("chunks({w}) over {what}"), &|| v.chunks(w), &rd, &chk, depth, out);
+    out.count("protocol traces", t);
+    out.observe(&(A::CID, n, w, t));
+}
+
 fn run_g<A: Sx>(c: &Case, out: &mut Out) {
-    let Case::Shape { n, s, ph, n2, s2, .. } = c;
+    let Case::Shape { n, s, ph, n2, s2, .. } = c else { return };
     let (n, s, ph, n2, s2) = (*n, *s, *ph, *n2, *s2);
     let cn = A::CID.name();
     let m = alphabet::<A>().len();
@@ -185,6 +232,7 @@ fn main() {
         json!({
             "iterators": ["iter", "(&SeqSlice).into_iter", "(&Seq).into_iter", "rev_iter", "chain", "windows(w)", "chunks(w)", "FromIterator<&SeqSlice> for Vec<Seq>"],
             "widths": "every w in 1..=n+2", "termination": "every drain capped at n+n2+5 items; exhausted iterators must keep returning None",
+            "protocol": "every sequence of {next, nth(0), nth(1), nth(2), nth(n+1)} up to depth 3 (quick) / 4 (thorough), each followed by every terminal consumer {drain, count, last, size_hint, fold, skip(1), step_by(2), skip(2).nth(1)}, on fresh iterators, against the same calls on the model list",
         })
     });
 }
